@@ -284,6 +284,46 @@ func zzCheckRetribution(r *simcore.Run, who string, ret *lnwallet.BreachRetribut
 	validate("commit-outputs", variants.spendCommitOuts, prev, len(covered)-nHtlc)
 	validate("htlc-outputs", variants.spendHTLCs, prev, nHtlc)
 
+	// The breach arbitrator persists the retribution before it acts and works
+	// from the stored copy after a restart: the same three transactions must
+	// be valid when built from what RetributionStore gives back.
+	if vp.DB != nil {
+		store := NewRetributionStore(vp.DB.Backend)
+		if err := store.Add(info); err != nil {
+			r.Fail("retribution-store", "%s: RetributionStore.Add: %v", who, err)
+		}
+		var restored *retributionInfo
+		err := NewRetributionStore(vp.DB.Backend).ForAll(func(ri *retributionInfo) error {
+			if ri.chanPoint == chanPoint {
+				restored = ri
+			}
+			return nil
+		}, func() { restored = nil })
+		if err != nil {
+			r.Fail("retribution-store", "%s: RetributionStore.ForAll after Add: %v", who, err)
+		}
+		if restored == nil {
+			r.Fail("retribution-store", "%s: the stored retribution is not found again", who)
+		}
+		if len(restored.breachedOutputs) != len(info.breachedOutputs) {
+			r.Fail("justice-missing-input", "%s: %d breached outputs stored, %d restored", who, len(info.breachedOutputs), len(restored.breachedOutputs))
+		}
+		rvs, err := brar.createJusticeTx(restored.breachedOutputs)
+		if err != nil {
+			r.Fail("justice-build", "%s: createJusticeTx on the restored retribution: %v", who, err)
+		}
+		validate("spend-all(after restart)", rvs.spendAll, prev, len(covered))
+		validate("commit-outputs(after restart)", rvs.spendCommitOuts, prev, len(covered)-nHtlc)
+		validate("htlc-outputs(after restart)", rvs.spendHTLCs, prev, nHtlc)
+		if err := store.Remove(&chanPoint); err != nil {
+			r.Fail("retribution-store", "%s: RetributionStore.Remove: %v", who, err)
+		}
+		r.Count("probe_retribution_store_round_trip")
+		if ret.ChanType.IsTaproot() && nHtlc >= 2 {
+			r.Count("probe_taproot_retribution_restored_with_several_htlcs")
+		}
+	}
+
 	// the cheater advances HTLCs to the second level first
 	if nHtlc > 0 && len(rv.second) > 0 {
 		idxs := make([]int, 0, len(info.breachedOutputs))
